@@ -397,6 +397,59 @@ def mk_coll(kind, dim, shape="c2"):
     return case
 
 
+def mk_three_axes(kind, dim, other="single"):
+    """a collection with THREE collection axes (2x2x2; two symbolic elements, six lattice elements, all different) joined / met with a single
+    symbolic object or with a one-axis collection broadcast along the last axis: every position equals the positionwise reference"""
+    LAT = [[1, 0, 2, 1], [0, 1, 1, 2], [2, 1, 0, -1], [1, 1, 1, 1], [3, -1, 2, 1], [-1, 2, 0, 3], [0, 3, -2, 1], [2, -2, 1, 0]]
+
+    def case(ctx):
+        from geometer import PointCollection, LineCollection, PlaneCollection, Point, Line, Plane, join, meet
+        from geometer.exceptions import LinearDependenceError
+        n = dim + 1
+        if kind == "join":
+            C, S_, op = PointCollection, Point, join
+        else:
+            C, S_, op = (LineCollection, Line, meet) if dim == 2 else (PlaneCollection, Plane, meet)
+        elems = {}
+        k = 0
+        for idx in itertools.product(range(2), repeat=3):
+            if idx == (0, 1, 0):
+                elems[idx] = vec(ctx, "p", n)
+            elif idx == (1, 0, 1):
+                elems[idx] = vec(ctx, "r", n)
+            else:
+                elems[idx] = ctx.const(LAT[k][:n] if dim == 3 else [LAT[k][0], LAT[k][1], LAT[k][3]], float)
+            k += 1
+        arr = np.stack([np.stack([np.stack([elems[(i, j, l)] for l in range(2)]) for j in range(2)]) for i in range(2)])
+        X = C(arr)
+        if other == "single":
+            q = vec(ctx, "q", n)
+            Y = S_(q)
+            second = {idx: q for idx in elems}
+        else:
+            qs = [vec(ctx, "q", n), ctx.const([1, -3, 2, 2][:n] if dim == 3 else [1, -3, 2], float)]
+            Y = C(np.stack(qs))
+            second = {idx: qs[idx[2]] for idx in elems}
+        for idx in elems:
+            ctx.assume(ctx.neg(_dep(ctx, [E(elems[idx]), E(second[idx])])))
+        tag = f"{kind}{dim}d_c2x2x2_{other}"
+        try:
+            res = op(X, Y)
+        except LinearDependenceError:
+            ctx.outcome(tag + ":LDE")
+            ctx.require(f"C02:{tag}:no-LDE-when-every-position-is-independent", False)
+            return
+        ctx.outcome(tag + ":ok")
+        ctx.require(f"C01:{tag}:collection-shape", tuple(res.shape[:3]) == (2, 2, 2) and res.free_indices == 3)
+        if tuple(res.shape[:3]) != (2, 2, 2):
+            return
+        for idx in elems:
+            u, v = E(elems[idx]), E(second[idx])
+            ref = R.cross3(u, v) if dim == 2 else (flat(eps4_pq(u, v)) if kind == "join" else flat(wedge(u, v)))
+            ctx.require(f"C01:{tag}:pos{list(idx)}", R.proj_equal(ctx, flat(R.mat(res.array[idx])) if res.array[idx].ndim == 2 else E(res.array[idx]), ref))
+    return case
+
+
 def mk_coll_lines3d(op_name, nsym=2):
     """collections of coplanar 3-D lines (vectorised Blinn branch): l_i = <a_i,b_i>, m_i = <a_i,c_i>"""
     def case(ctx):
@@ -596,6 +649,10 @@ def all_cases(tier):
         for dim in (2, 3):
             for shape in ("c2", "s_c2", "c2x1"):
                 cs.append((f"{kind}{dim}d_{shape}", mk_coll(kind, dim, shape), dict(tiers=Q if (dim == 2 or shape == "c2") else T)))
+    for kind in ("join", "meet"):
+        for dim in (2, 3):
+            for other in ("single", "c2"):
+                cs.append((f"{kind}{dim}d_c2x2x2_{other}", mk_three_axes(kind, dim, other), dict(tiers=Q)))
     for shp in ("c2_s", "s_c2", "c2x1", "c2x2"):
         cs.append((f"meet3d_ll_{shp}", mk_ll_shapes("meet", shp), dict(tiers=Q)))
         cs.append((f"join3d_ll_{shp}", mk_ll_shapes("join", shp), dict(tiers=Q if shp in ("c2_s", "c2x1") else T)))
